@@ -256,7 +256,7 @@ func zero(t types.Type) value {
 	case *types.Chan:
 		return (*gchan)(nil)
 	case *types.Map:
-		if isStringType(t.Key()) {
+		if symKeyMapType(t.Key()) {
 			return (*smap)(nil)
 		}
 		if usesBuiltinMap(t.Key()) {
